@@ -33,6 +33,10 @@ ASSUMPTIONS = [
 MIN_NONTRIVIAL = {"quick": 20000, "thorough": 150000}
 TIMEOUT = {"quick": 900, "thorough": 7200}
 
+# extra workload (never deciding): invariant monitors on the repository's own tests
+AMBIENT = {"tests": ["test_cyclecount.py", "test_fdepsd.py"],
+           "monitors": ["rainflow", "findap"], "quick": False}
+
 VARIANTS = ["fast-gcc", "fast-asan", "lowmem-gcc", "lowmem-asan"]
 ASAN_RT = "/usr/lib/llvm-14/lib/clang/14.0.6/lib/linux/libclang_rt.asan-x86_64.so"
 
